@@ -13,6 +13,14 @@ CHECKS = {
    "One real waiter parked in wait_for_credit / wait_for_reconnect with 1-3 signalling threads under seeded schedulers (sticky/random/PCT) and spurious wake-ups on the simulated clock; a monitor thread inspects the settled state at every quiescent instant: a parked waiter whose condition holds is a lost wake-up, a Timeout must land exactly on the deadline.",
    "simkernel Condvar faithfully models notify/wait (a notify only wakes registered waiters); discrete-event clock advances only at quiescence.",
    "deterministic simulation: seeded schedules over the real mutex/condvar protocol, quiescence oracle"),
+ "C14": ("exploration","5.3/C14",
+   "Seeded sequential histories (small scope and long random, direct Registry API and Router mounts with and without prefix) compared step by step with an independent RFC 6901 JSON-tree + callable-set model (whole-tree equality after every step, callable invocation log), plus 2-4 simulated threads x 1-4 concurrent requests under seeded schedules checked for linearizability (WGL search, event-sequence stamps).",
+   "array index tokens are canonical decimal (no sign/leading zeros); only requests (read/write/call) run concurrently, registrations and merges stay in the sequential prefix; linearizability search bounded to 16 operations.",
+   "deterministic simulation: seeded histories vs. reference model + linearizability check of simulated-thread histories"),
+ "C18": ("exploration","5.3/C18",
+   "Seeded sequential histories (<=3 peers x 3 keys small scope, and long random) on the real PeerRegistry compared step by step with a peer/alias model including every key's lookup and every peer's alias list after each step; capturing sinks (some reporting Full/Disconnected) check broadcast delivery and content; 2-4 simulated threads x 1-4 ops under seeded schedules checked for linearizability.",
+   "PeerIds inserted into one registry are unique (documented contract); linearizability search bounded to 16 operations.",
+   "deterministic simulation: seeded histories vs. reference model + linearizability check of simulated-thread histories"),
  "C13": ("exploration","5.3/C13",
    "Seeded push/evict/resume/advance/cancel/ack histories on the real replay ring against a retained-suffix model: resume decision, gapless byte-identical replay tail, bounded ring, newest chunk kept, advance empties.",
    "pushes are contiguous in the logical-offset domain (documented precondition).",
